@@ -1291,6 +1291,9 @@ class System:
                 # The replaced module might have another parent than the new one (directory "a.b" vs "a/b.py"):
                 # do not leave it behind in its parent's contents.
                 del first.parent.contents[first.name]
+            if first in self.rootobjects:
+                # A replaced top-level module is not a root of the system anymore.
+                self.rootobjects.remove(first)
             self._addUnprocessedModule(dup)
 
     def _introspectThing(self, thing: object, parent: CanContainImportsDocumentable, parentMod: _ModuleT) -> None:
